@@ -4,6 +4,7 @@ import (
 	"crypto/md5"
 	"errors"
 	"fmt"
+	"math"
 	"sort"
 	"sync"
 	"time"
@@ -55,8 +56,8 @@ type msg struct {
 
 // New creates an aggregator
 func New(fun string, matcher matcher.Matcher, outFmt string, cache bool, interval, wait uint, dropRaw bool, out chan []byte) (*Aggregator, error) {
-	if interval == 0 {
-		return nil, errors.New("aggregator interval must be at least 1 second")
+	if interval == 0 || interval > math.MaxInt64/uint(time.Second) {
+		return nil, errors.New("aggregator interval must be at least 1 second and fit a time.Duration")
 	}
 	if matcher.Regex == "" {
 		return nil, errors.New("aggregator needs a regex")
